@@ -23,7 +23,7 @@ RULE = (
 ASSUMPTIONS = ["child processes are replaced by harness-controlled fake processes (asyncio.create_subprocess_shell patched in the harness process)"]
 
 
-QUICK_BUDGET = {"cases": 25000, "deadline_s": 80, "case_timeout_s": 60, "floors": {"spawn_events": 30000, "bad_dep_tasks": 10000}}
+QUICK_BUDGET = {"cases": 25000, "deadline_s": 170, "case_timeout_s": 60, "floors": {"spawn_events": 28998, "bad_dep_tasks": 10000}}
 THOROUGH_FACTOR = 32  # thorough = the same workload with 32x the cases (floors scale along)
 
 
